@@ -347,6 +347,22 @@ func (me *memEng) MultiGetBytes(keyList [][]byte, values [][]byte, errs []error)
 		}
 		return
 	}
+	if useMemType == memTypeRadix {
+		// read all keys from one snapshot: a batch committed while we are reading
+		// must be seen completely or not at all
+		txn := me.radixMemI.memkv.Snapshot().Txn(false)
+		defer txn.Abort()
+		for i, k := range keyList {
+			v, err := me.radixMemI.getInTxn(txn, k)
+			if err == nil && v != nil {
+				d := make([]byte, len(v))
+				copy(d, v)
+				v = d
+			}
+			values[i], errs[i] = v, err
+		}
+		return
+	}
 	for i, k := range keyList {
 		values[i], errs[i] = me.GetBytesNoLock(k)
 	}
